@@ -35,12 +35,13 @@ CHECKS = {
         text='Proved: every model parser is a total Lean function; for the loops whose trip count is driven by on-disk values - the '
              'RomFS metadata walk (never more entries than the tables can hold, so cyclic / self-referential links end in '
              'RomFSEntryError), the backward LZSS decoder (at most ptr_in - comp_start control bytes: the model\'s fuel is never what '
-             'stops it) and the seed-database loader (never more entries than the file holds) - explicit bounds in the input '
-             'length.  Measured for all 15 reader entry points: construction + full traversal of retargeted valid files, '
+             'stops it) the seed-database loader (never more entries than the file holds) and the chunk planner of the fully-decrypted '
+             'NCCH view (any read plans at most len(file)/0x200 + 1 chunks whatever content size the header claims, the plan '
+             'has no more pieces than chunks) - explicit bounds in the input length.  Measured for all 15 reader entry points: construction + full traversal of retargeted valid files, '
              'truncations and random byte strings under a line-event budget linear in the input length (sys.monitoring on pyctr '
              'code), an address-space cap and a 25 s alarm; a budget overrun, MemoryError or hang is a violation with the '
              'input as replay.',
-        note=COMMON_NOTE + 'PARTIAL: for NCCH/CIA/CCI/TMD/SMDH/NAND/DISA/DIFF/config save the bound is the measured budget, not a '
+        note=COMMON_NOTE + 'PARTIAL: for NCCH (other than the full-view planner)/CIA/CCI/TMD/SMDH/NAND/DISA/DIFF/config save the bound is the measured budget, not a '
              'theorem; wall-clock and memory are runtime facts; a constant bound from a fixed-width field is not accepted as '
              '"depending only on the input size" (the budget is linear).',
         technique='Lean 4 proof (termination / cost bounds of the value-driven loops) + budgeted execution of the implementation',
